@@ -114,40 +114,39 @@ func c06CompareStreams(what string, got psi.PMT, m *ref.PMT) *hx.Failure {
 	return nil
 }
 
-// c06Probe observes descriptor body content through the decoders.
+// c06Probe observes descriptor body content through the decoders - the only window the API offers onto a body. What the
+// decoders make of a body is C20's clause; here the decoded descriptor only has to answer every decoder like a descriptor
+// built directly from the encoded tag and body (so a library whose decoders are wrong, or different, is not blamed for
+// its section parser).
 func c06Probe(what string, g psi.PmtDescriptor, d ref.Descriptor) *hx.Failure {
-	b := d.Body
-	switch d.Tag {
-	case 0x0A:
-		if len(b) >= 4 {
-			if g.DecodeIso639LanguageCode() != string(b[0:3]) || g.DecodeIso639AudioType() != b[3] {
-				return hx.Failf("descriptor-body", "%s: ISO-639 decoded (%q, %#x), body %x", what, g.DecodeIso639LanguageCode(), g.DecodeIso639AudioType(), []byte(b))
+	r := psi.NewPmtDescriptor(d.Tag, clone(d.Body))
+	type obs struct {
+		name     string
+		got, ref interface{}
+	}
+	safe := func(f func() interface{}) (v interface{}) {
+		defer func() {
+			if p := recover(); p != nil {
+				v = fmt.Sprintf("panic: %v", p)
 			}
-		}
-	case 0x0E:
-		if len(b) == 3 {
-			want := uint32(b[0]&0x1f)<<16 | uint32(b[1])<<8 | uint32(b[2])
-			if g.DecodeMaximumBitRate() != want {
-				return hx.Failf("descriptor-body", "%s: maximum bitrate decoded %d, body %x", what, g.DecodeMaximumBitRate(), []byte(b))
-			}
-		}
-	case 0x05:
-		if len(b) >= 4 && g.IsDolbyVision() != (string(b[:4]) == "DOVI") {
-			return hx.Failf("descriptor-body", "%s: IsDolbyVision()=%v, body %x", what, g.IsDolbyVision(), []byte(b))
-		}
-	case 0x7F:
-		if len(b) >= 5 && b[0] == 0x20 { // a TTML subtitling descriptor proper (other extension descriptors are not TTML)
-			if g.DecodeTTMLIso639LanguageCode() != string(b[1:4]) || g.DecodeTTMLSubtitlePurpose() != b[4]>>2 || g.IsTTMLDescTagExtension() != (b[0] == 0x20) {
-				return hx.Failf("descriptor-body", "%s: TTML decoded (%q, %d, ext=%v), body %x", what, g.DecodeTTMLIso639LanguageCode(), g.DecodeTTMLSubtitlePurpose(), g.IsTTMLDescTagExtension(), []byte(b))
-			}
-		}
-	case 0xB0:
-		if len(b) >= 4 {
-			num := uint16(b[2])<<8 | uint16(b[3])
-			want := fmt.Sprintf("dvhe.%02d.%02d", num>>9, (num>>3)&0x3F)
-			if (num>>3)&0x3F < 32 && g.DecodeDolbyVisionCodec("") != want {
-				return hx.Failf("descriptor-body", "%s: Dolby Vision codec %q, want %q (body %x)", what, g.DecodeDolbyVisionCodec(""), want, []byte(b))
-			}
+		}()
+		return f()
+	}
+	for _, o := range []obs{
+		{"DecodeIso639LanguageCode", safe(func() interface{} { return g.DecodeIso639LanguageCode() }), safe(func() interface{} { return r.DecodeIso639LanguageCode() })},
+		{"DecodeIso639AudioType", safe(func() interface{} { return g.DecodeIso639AudioType() }), safe(func() interface{} { return r.DecodeIso639AudioType() })},
+		{"DecodeMaximumBitRate", safe(func() interface{} { return g.DecodeMaximumBitRate() }), safe(func() interface{} { return r.DecodeMaximumBitRate() })},
+		{"IsDolbyVision", safe(func() interface{} { return g.IsDolbyVision() }), safe(func() interface{} { return r.IsDolbyVision() })},
+		{"IsDolbyATMOS", safe(func() interface{} { return g.IsDolbyATMOS() }), safe(func() interface{} { return r.IsDolbyATMOS() })},
+		{"DecodeDolbyVisionCodec", safe(func() interface{} { return g.DecodeDolbyVisionCodec("hvc1") }), safe(func() interface{} { return r.DecodeDolbyVisionCodec("hvc1") })},
+		{"DecodeTTMLIso639LanguageCode", safe(func() interface{} { return g.DecodeTTMLIso639LanguageCode() }), safe(func() interface{} { return r.DecodeTTMLIso639LanguageCode() })},
+		{"DecodeTTMLSubtitlePurpose", safe(func() interface{} { return g.DecodeTTMLSubtitlePurpose() }), safe(func() interface{} { return r.DecodeTTMLSubtitlePurpose() })},
+		{"IsTTMLDescTagExtension", safe(func() interface{} { return g.IsTTMLDescTagExtension() }), safe(func() interface{} { return r.IsTTMLDescTagExtension() })},
+		{"IsIFrameProfile", safe(func() interface{} { return g.IsIFrameProfile() }), safe(func() interface{} { return r.IsIFrameProfile() })},
+		{"IsEBPDescriptor", safe(func() interface{} { return g.IsEBPDescriptor() }), safe(func() interface{} { return r.IsEBPDescriptor() })},
+	} {
+		if o.got != o.ref {
+			return hx.Failf("descriptor-body", "%s: %s() = %v on the decoded descriptor, %v on a descriptor built from the encoded tag %#x and body %x", what, o.name, o.got, o.ref, d.Tag, []byte(d.Body))
 		}
 	}
 	return nil
@@ -400,6 +399,9 @@ func TestC06ExhaustiveTableHeader(t *testing.T) {
 	for tid := 0; tid < 256; tid++ {
 		for flags := 0; flags < 4; flags++ {
 			for l := 0; l < 1024; l++ {
+				if tid <= 3 && l > 1021 {
+					continue // the ISO tables stop at 1021: a header decoder may refuse what no legal section announces
+				}
 				c := CaseC06TH{tid, flags&1 != 0, flags&2 != 0, l}
 				if f := c06TH(c); f != nil {
 					propC06TH.Eval(c)
@@ -410,7 +412,7 @@ func TestC06ExhaustiveTableHeader(t *testing.T) {
 		}
 	}
 	hx.Rec("C06").Bulk(n, n)
-	hx.Rec("C06").Subspace("TableHeader.Data / TableHeaderFromBytes identity and bit layout: all 256 table ids x 4 flag combinations x section_length 0..1023")
+	hx.Rec("C06").Subspace("TableHeader.Data / TableHeaderFromBytes identity and bit layout: all 256 table ids x 4 flag combinations x section_length 0..1023 (0..1021 for table ids 0..3)")
 }
 
 func FuzzC06(f *testing.F) {
